@@ -140,17 +140,19 @@ def colOfList : List Float → Col Float
 
 def closeL (tol : Float) (a b : List Float) : Bool := closeList (close tol) a b
 
-/-- `jac K q eps cond => 36 (rows) X6 iso vel? veliso? velfix? tor toriso` -/
+/-- `jac K q eps cond => panic | 36 (rows) X6 iso (panic | vel? veliso? velfix? tor toriso)` -/
 def opJac : RM Res := do
   let k ← rKin
   let q ← rJ6
   let eps ← rF
   let cond ← rF
   expect "=>"
+  if (← peek?) == some "panic" then return panicRes "Jacobian::new / torques_from_vector"
   let mut rows : Array (List Float) := #[]
   for _ in [0:6] do rows := rows.push (← rV6)
   let x ← rV6
   let iso ← rIso
+  if (← peek?) == some "panic" then return panicRes "a velocity / torque entry point of the Jacobian (wrench or twist in the case line)"
   let vel ← rOptV6
   let velIso ← rOptV6
   let velFix ← rOptV6
